@@ -100,7 +100,8 @@ def meekIterate (o : MeekOpts) (omega : α) : Nat → α → St α → St α × 
     let s3 := { s2 with quota := meekQuota A s2 }
     let winners := s3.hopeful.filter (hasQuotaX A s3)
     let s4 := winners.foldl (fun acc c => acc.elect A c.cid "Elect" false) s3
-    let s5 := { s4 with surplus := A.sum (s4.elected.map (fun c => A.sub c.vote s4.quota)) }
+    let sp := A.sum (s4.elected.map (fun c => A.sub c.vote s4.quota))
+    let s5 := { s4 with surplus := if A.lt sp A.zero then A.zero else sp }
     if !winners.isEmpty then (s5, .elected)
     else if A.le s5.surplus omega then (s5, .omega)
     else if A.ge s5.surplus lastsurplus then
